@@ -23,6 +23,7 @@ of the same call, initial ones through without_deadline; left_until_retry = dur.
 the drain predicate keeps an entry exactly when time is left and its minimum is what EXECUTE sleeps on;
 (R5) freshness/no overlap: re-insertion only after Finished (R1) + World linearity (C09).
 Not decided: that the elapsed wall-clock time is really >= the delay on a given clock.
+Added after the second seeded round: (R5) the retry resolver is called once per enqueued scenario with the scenario's own feature, rule and scenario (= C18.R5).
 """
 DECLINED = ["real elapsed time versus the configured delay (timing)"]
 ASSUMPTIONS = ["Instant::elapsed is monotonic; Duration::checked_sub is None iff rhs > lhs"]
